@@ -9,8 +9,13 @@ git diff > $OUT/patch.diff
 git apply -R $OUT/patch.diff
 echo "--- demo without the change (must pass)"; PYTHONPATH=$WT /venv/bin/python $OUT/demo.py >/tmp/demo.out 2>&1; echo "exit=$?"; tail -2 /tmp/demo.out
 git apply $OUT/patch.diff
+if [ -n "$SEED_VIA_ENV" ]; then
+  # first-pass triage without touching /repo (e.g. while a background run reads it): the check reads the worktree instead
+  echo "--- check against the worktree (SIMFILE_REPO=$WT)"
+  for c in ${CHECKS:-$P}; do (cd /verif && SIMFILE_REPO=$WT ./check $c > /tmp/sc.out 2>&1; echo "check exit: $?"; grep -v "^  bounded\|^  ERROR" /tmp/sc.out | head -6); done
+  exit 0
+fi
 echo "--- check on /repo with the change applied"
 cd /repo && git apply $OUT/patch.diff || { echo "patch does not apply to /repo"; exit 8; }
-shift; [ -n "$SFX" ] && shift
-for c in ${CHECKS:-$P}; do (cd /verif && ./check $c 2>&1 | grep -v "^  bounded\|^  ERROR" | head -6); echo "check exit: $?"; done
+for c in ${CHECKS:-$P}; do (cd /verif && ./check $c > /tmp/sc.out 2>&1; echo "check exit: $?"; grep -v "^  bounded\|^  ERROR" /tmp/sc.out | head -6); done
 git -C /repo checkout -- .
